@@ -46,6 +46,7 @@
    7. `filter_string_meaning`, `filter_strings_select_exactly` (third round)
                                 from the user's filter STRINGS (requestHandler.GetTagFilter: "", raw codes, " 0" = the empty value,
                                 comments and bucket labels of raw tags, mapped and unmapped strings, error cases) to the selected rows.
+   8. `wellformed_any_length` (fifth round): no length hypothesis anywhere; lengthening every string keeps all of 4.
   Helper lemmas (and `in/notin` clause semantics, `where_skeleton_balanced`) live in SH/Lemmas/Sql.lean.
 -/
 import SH.Lemmas.Sql
@@ -604,5 +605,53 @@ example : valMatches false ⟨0, str "x"⟩ (tvM 0) = true ∧ userWants toyLook
 /-- `r.n ≠ -2` is needed: a string without mapping is given the id -2, which would match a row holding -2 -/
 example : valMatches false ⟨-2, []⟩ (tvBoth (str "it's") (-2)) = true ∧
     userWants toyLookup none plainTag (str "it's") ⟨-2, []⟩ = false := by decide
+
+
+/-! ### no length hypothesis -/
+
+/-- pad every non-empty string to at least `n` more bytes -/
+def padTo (n : Nat) (pad : UInt8) (s : Bytes) : Bytes := if s.isEmpty then s else List.replicate n pad ++ s
+
+theorem padTo_keepsEmpty (n : Nat) (pad : UInt8) : KeepsEmpty (padTo n pad) := by
+  intro s
+  cases s with
+  | nil => simp [padTo]
+  | cons c s => simp [padTo]
+
+/-- **Well-formedness does not depend on lengths.** `query_wellformed` quantifies over all byte strings and has no length
+    hypothesis; explicitly: lengthen every filter value and regular expression of both polarities by any number `n` of bytes
+    (beyond format.MaxStringLen = 128, beyond any buffer) — the complete query still scans into exactly its (lengthened) user
+    strings, one literal each, with a quote-free, balanced skeleton, and that skeleton is the one of the original query. -/
+theorem wellformed_any_length (c : Cfg) (e : QCfg) (h : QOK e) (fin fnotin : Filters) (n : Nat) (pad : UInt8) (fs : List Frag)
+    (hf : queryFrags c e (mapFilters (padTo n pad) fin) (mapFilters (padTo n pad) fnotin) = some fs) :
+    scanAll (flatten fs) =
+      some (queryStrings c e (mapFilters (padTo n pad) fin) (mapFilters (padTo n pad) fnotin), skel fs) ∧
+    NoQ (skel fs) ∧ bal 0 (skel fs) = some 0 ∧
+    (queryFrags c e fin fnotin).map skel = some (skel fs) := by
+  obtain ⟨h1, h2, h3⟩ := query_wellformed c e h _ _ fs hf
+  refine ⟨h1, h2, h3, ?_⟩
+  rw [← query_skeleton_independent (padTo_keepsEmpty n pad) c e fin fnotin, hf]
+  rfl
+
+set_option maxRecDepth 100000 in
+/-- a 129-byte value (one byte more than format.MaxStringLen) in the real writer's model: one literal, decoded back -/
+example : (scanAll (flatten (tagFrags testCfg true 1 ⟨[⟨true, false, List.replicate 129 97, 0⟩], []⟩))).map (·.1) =
+    some [List.replicate 129 97] := by decide
+
+/-- The seeded variant C26-r5-2: the second pass of writeTagFilter skips values longer than 128 bytes, the first pass still
+    counts them and the closing `')` is written unconditionally. With only long values the list is never opened but closed. -/
+def strInSkipLong (strE : Bytes) (neg : Bool) (vals : List Bytes) : List Frag :=
+  match vals.filter (fun v => v.length ≤ 128) with
+  | [] => [.raw (str "')")]
+  | a :: rest => .raw (str " OR " ++ strE ++ opText neg ++ str "(") :: (commaLits (a :: rest) ++ [.raw (str ")")])
+set_option maxRecDepth 100000 in
+/-- … the query text `… AND (0!=0')) GROUP BY _time` does not lex: unterminated literal -/
+example : scanAll (flatten (.raw (str " AND (0!=0") ::
+    (strInSkipLong (colStr 1) false [List.replicate 129 97] ++ [.raw (str ") GROUP BY _time")]))) = none := by decide
+set_option maxRecDepth 100000 in
+/-- … and with a short value next to it the long value silently disappears from the literals -/
+example : (scanAll (flatten (.raw (str " AND (0!=0") ::
+    (strInSkipLong (colStr 1) false [List.replicate 129 97, str "b"] ++ [.raw (str ") GROUP BY _time")])))).map (·.1) =
+    some [str "b"] := by decide
 
 end SH.C26
